@@ -63,7 +63,9 @@ func cacheKey(uri, parentURI string) string {
 
 	fileName := strings.TrimPrefix(uri, "file://")
 	if filepath.IsAbs(fileName) {
-		return fileName
+		// Cleaned like the joined name below, so that "/dir/./a.json" given on the command line and
+		// "a.json" referenced from "/dir/b.json" are one document.
+		return filepath.Clean(fileName)
 	}
 
 	return filepath.Join(filepath.Dir(parentURI), fileName)
